@@ -527,3 +527,353 @@ theorem globalRoute_spec (P : Plat) (hn : ∀ np, (allEnglobing P np).Nodup)
   globalRouteV_spec true P hn (Or.inl rfl) f src dst links lat (Or.inl rfl)
 
 end SgVerif.C24
+
+/- ================================================================ Vivaldi zones: the coordinate term given by the model -/
+namespace SgVerif.C24
+
+/-- the Route (`Plat.loc` entry) made of an answer of the Vivaldi model, its term evaluated by `ρ` -/
+def VRoute.toRoute (ρ : VTerm → Int) (m : VRoute) : Route :=
+  { links := m.links, gwSrc := m.gwSrc, gwDst := m.gwDst, extra := ρ m.term }
+
+/-- the Vivaldi zones of `P` answer what the model of VivaldiZone::get_local_route answers (`V.local`: links of the
+Star part, gateways, exception when an end has no coordinates …), and what they add to the latency beyond their links is
+the model's coordinate term `vivaldiTerm (coords src) (coords dst)` evaluated by `ρ` (the numeric evaluation of
+`(√rad + hsum) / 1000` in latency units — the only thing left abstract). -/
+def FollowsVivaldi (P : Plat) (V : Viv) (ρ : VTerm → Int) : Prop :=
+  ∀ z, V.isViv z = true → ∀ a b, P.loc z a b = (V.local P.isZone z a b).map (VRoute.toRoute ρ)
+
+/-- no other zone adds anything to the latency beyond its links -/
+def OnlyVivaldiAdds (P : Plat) (V : Viv) : Prop :=
+  ∀ z a b r, V.isViv z = false → P.loc z a b = some r → r.extra = 0
+
+theorem vivaldiLocal_term (isZone : Np → Bool) (routerOf : Np → Option Np) (coords : Np → Option Coord)
+    (t : StarTab) (verts : List Np) (a b : Np) (m : VRoute)
+    (h : vivaldiLocal isZone routerOf coords t verts a b = some m) :
+    ∃ ca cb, coords a = some ca ∧ coords b = some cb ∧ m.term = vivaldiTerm ca cb := by
+  unfold vivaldiLocal at h
+  simp only at h
+  split at h
+  · cases h
+  · split at h
+    · rename_i ca cb hca hcb
+      cases h
+      exact ⟨ca, cb, hca, hcb, rfl⟩
+    · cases h
+
+/-- what a declared segment adds beyond its links is the model's term of that segment (0 outside Vivaldi zones) -/
+theorem seg_extra_eq (P : Plat) (V : Viv) (ρ : VTerm → Int) (hV : FollowsVivaldi P V ρ) (hN : OnlyVivaldiAdds P V)
+    (s : Seg) (hs : s.valid P) :
+    s.extra = match s.vterm V with
+      | some t => ρ t
+      | none => 0 := by
+  cases s with
+  | byp z k b => rfl
+  | loc z a b r =>
+    simp only [Seg.valid] at hs
+    cases hz : V.isViv z with
+    | false =>
+      simp only [Seg.vterm, hz, Bool.false_eq_true, if_false, Seg.extra]
+      exact hN z a b r hz hs
+    | true =>
+      have h1 := hV z hz a b
+      rw [hs] at h1
+      cases hm : V.local P.isZone z a b with
+      | none => rw [hm] at h1; cases h1
+      | some m =>
+        rw [hm] at h1
+        simp only [Option.map_some, Option.some.injEq] at h1
+        obtain ⟨ca, cb, hca, hcb, ht⟩ := vivaldiLocal_term _ _ _ _ _ _ _ _ hm
+        simp only [Seg.vterm, hz, if_true, hca, hcb, Seg.extra]
+        rw [h1, ← ht]; rfl
+
+theorem segsExtra_eq_vivTerms (P : Plat) (V : Viv) (ρ : VTerm → Int) (hV : FollowsVivaldi P V ρ)
+    (hN : OnlyVivaldiAdds P V) (segs : List Seg) (hs : ∀ s ∈ segs, s.valid P) :
+    segsExtra segs = ((vivTerms V segs).map ρ).sum := by
+  induction segs with
+  | nil => rfl
+  | cons s ss ih =>
+    have h1 := seg_extra_eq P V ρ hV hN s (hs s (by simp))
+    have h2 := ih (fun x hx => hs x (by simp [hx]))
+    simp only [segsExtra, List.map_cons, List.sum_cons] at *
+    simp only [vivTerms, List.filterMap_cons]
+    cases hv : s.vterm V with
+    | none => simp only [hv] at h1 ⊢; rw [h1, h2]; simp [vivTerms]
+    | some t => simp only [hv] at h1 ⊢; rw [h1, h2]; simp [vivTerms]
+
+/-- every term of `vivTerms` is the model's term of a Vivaldi segment of the route -/
+theorem vivTerms_mem (V : Viv) (segs : List Seg) (t : VTerm) (h : t ∈ vivTerms V segs) :
+    ∃ z a b r ca cb, Seg.loc z a b r ∈ segs ∧ V.isViv z = true ∧ V.coords a = some ca ∧ V.coords b = some cb ∧
+      t = vivaldiTerm ca cb := by
+  simp only [vivTerms, List.mem_filterMap] at h
+  obtain ⟨s, hs, hst⟩ := h
+  cases s with
+  | byp z k b => simp [Seg.vterm] at hst
+  | loc z a b r =>
+    simp only [Seg.vterm] at hst
+    split at hst
+    · rename_i hz
+      split at hst
+      · rename_i ca cb hca hcb
+        cases hst
+        exact ⟨z, a, b, r, ca, cb, hs, hz, hca, hcb, rfl⟩
+      · cases hst
+    · cases hst
+
+/-- (Σ xᵢ : Int) / U = Σ (xᵢ / U) over the rationals -/
+theorem ratCast_sum_div {α : Type} (l : List α) (g : α → Int) (U : Nat) :
+    (((l.map g).sum : Int) : Rat) / U = (l.map (fun x => (g x : Rat) / U)).sum := by
+  induction l with
+  | nil => simp only [List.map_nil, List.sum_nil]; grind
+  | cons x xs ih =>
+    simp only [List.map_cons, List.sum_cons]
+    rw [Rat.intCast_add, ← ih]
+    grind
+
+theorem sum_between {α : Type} (l : List α) (g lo hi : α → Int) (ε : Int)
+    (h : ∀ x ∈ l, lo x - ε ≤ g x ∧ g x ≤ hi x + ε) :
+    (l.map lo).sum - l.length * ε ≤ (l.map g).sum ∧ (l.map g).sum ≤ (l.map hi).sum + l.length * ε := by
+  induction l with
+  | nil => simp
+  | cons x xs ih =>
+    have h1 := h x (by simp)
+    have h2 := ih (fun y hy => h y (by simp [hy]))
+    simp only [List.map_cons, List.sum_cons, List.length_cons]
+    have e : ((xs.length + 1 : Nat) : Int) * ε = xs.length * ε + ε := by
+      rw [Int.natCast_add, Int.add_mul]; simp
+    rw [e]
+    omega
+
+/- ---- the rational bracket of a term contains every value of the term -/
+
+theorem rat_le_of_sq_le (a b : Rat) (hb : 0 ≤ b) (h : a * a ≤ b * b) : a ≤ b := by
+  apply Classical.byContradiction
+  intro hn
+  have hlt : b < a := by grind
+  have ha : 0 < a := by grind
+  have h1 : b * b ≤ b * a := Rat.mul_le_mul_of_nonneg_left (Rat.le_of_lt hlt) hb
+  have h2 : a * b < a * a := Rat.mul_lt_mul_of_pos_left hlt ha
+  grind
+
+theorem rat_lt_of_sq_lt (a b : Rat) (ha : 0 ≤ a) (h : a * a < b * b) (hb : 0 ≤ b) : a < b := by
+  apply Classical.byContradiction
+  intro hn
+  have hle : b ≤ a := by grind
+  have h1 : b * b ≤ b * a := Rat.mul_le_mul_of_nonneg_left hle hb
+  have h2 : a * b ≤ a * a := Rat.mul_le_mul_of_nonneg_left hle ha
+  grind
+
+/-- `x = s · (den · m)` squares to the integer `n · den · m²` whose integer square root the bracket uses -/
+theorem scaled_sq (q s : Rat) (m : Nat) (hq : s * s = q) :
+    (s * ((q.den * m : Nat) : Rat)) * (s * ((q.den * m : Nat) : Rat)) =
+      ((q.num.toNat * q.den * (m * m) : Nat) : Rat) := by
+  have hq0 : 0 ≤ q := by
+    rw [← hq]
+    rcases Rat.le_total (a := 0) (b := s) with h | h
+    · exact Rat.mul_nonneg h h
+    · have : 0 ≤ -s := by grind
+      have := Rat.mul_nonneg this this
+      grind
+  have hn : 0 ≤ q.num := Rat.num_nonneg.mpr hq0
+  have e1 : ((q.num.toNat : Nat) : Rat) = (q.num : Rat) := by
+    rw [← Rat.intCast_natCast, Int.toNat_of_nonneg hn]
+  have e2 : q * (q.den : Rat) = (q.num : Rat) := by
+    have h := Rat.mkRat_eq_div q.num q.den
+    rw [Rat.mkRat_self] at h
+    have hd : ((q.den : Nat) : Rat) ≠ 0 := by
+      have := q.den_pos
+      simp only [ne_eq, Rat.natCast_eq_zero_iff]; omega
+    have := Rat.div_mul_cancel (a := (q.num : Rat)) hd
+    rw [← h] at this
+    exact this
+  simp only [Rat.natCast_mul, e1]
+  rw [← e2, ← hq]
+  grind
+
+theorem sqrtBracket_sound (m : Nat) (hm : 0 < m) (q s : Rat) (hs : 0 ≤ s) (hq : s * s = q) :
+    (sqrtBracket m q).1 ≤ s ∧ s ≤ (sqrtBracket m q).2 := by
+  have hx := scaled_sq q s m hq
+  have hD : (0 : Rat) < ((q.den * m : Nat) : Rat) :=
+    Rat.natCast_pos.mpr (Nat.mul_pos q.den_pos hm)
+  generalize hDd : ((q.den * m : Nat) : Rat) = D at hx hD
+  generalize hN : q.num.toNat * q.den * (m * m) = N at hx
+  have hx0 : 0 ≤ s * D := Rat.mul_nonneg hs (Rat.le_of_lt hD)
+  have hlo : ((Nat.sqrt N : Nat) : Rat) ≤ s * D := by
+    apply rat_le_of_sq_le _ _ hx0
+    rw [hx, ← Rat.natCast_mul]
+    exact Rat.natCast_le_natCast.mpr (Nat.sqrt_le N)
+  have hhi : s * D < ((Nat.sqrt N + 1 : Nat) : Rat) := by
+    apply rat_lt_of_sq_lt _ _ hx0 _ Rat.natCast_nonneg
+    rw [hx, ← Rat.natCast_mul]
+    exact Rat.natCast_lt_natCast.mpr (Nat.lt_succ_sqrt N)
+  have key : ∀ (c : Rat), c ≤ s * D → c / D ≤ s := by
+    intro c hc
+    rw [Rat.div_def]
+    have := Rat.mul_le_mul_of_nonneg_right hc (Rat.le_of_lt (Rat.inv_pos.mpr hD))
+    have e : s * D * D⁻¹ = s := by
+      rw [Rat.mul_assoc, Rat.mul_inv_cancel _ (by grind), Rat.mul_one]
+    rw [e] at this; exact this
+  have key2 : ∀ (c : Rat), s * D ≤ c → s ≤ c / D := by
+    intro c hc
+    rw [Rat.div_def]
+    have := Rat.mul_le_mul_of_nonneg_right hc (Rat.le_of_lt (Rat.inv_pos.mpr hD))
+    have e : s * D * D⁻¹ = s := by
+      rw [Rat.mul_assoc, Rat.mul_inv_cancel _ (by grind), Rat.mul_one]
+    rw [e] at this; exact this
+  unfold sqrtBracket
+  simp only [hN, hDd]
+  split
+  · rename_i heq
+    -- perfect square: s · D = √N exactly
+    have hle : s * D ≤ ((Nat.sqrt N : Nat) : Rat) := by
+      apply rat_le_of_sq_le _ _ Rat.natCast_nonneg
+      rw [hx, ← Rat.natCast_mul, heq]
+      exact Rat.le_refl
+    exact ⟨key _ hlo, key2 _ hle⟩
+  · exact ⟨key _ hlo, key2 _ (Rat.le_of_lt hhi)⟩
+
+/-- **the bracket the driver compares the observed term with contains every value of the model's term**:
+if `v` seconds is the value of the term (`v·1000 - hsum` is the non-negative square root of `rad`), then
+`lo ≤ v · unit ≤ hi` for `(lo, hi) = termBracket unit m term` -/
+theorem termBracket_sound (unit m : Nat) (hm : 0 < m) (t : VTerm) (v : Rat) (hv : t.HasValue v) :
+    ((termBracket unit m t).1 : Rat) ≤ v * unit ∧ v * unit ≤ ((termBracket unit m t).2 : Rat) := by
+  obtain ⟨h0, hsq⟩ := hv
+  obtain ⟨hlo, hhi⟩ := sqrtBracket_sound m hm t.rad (v * 1000 - t.hsum) h0 hsq
+  have hu : (0 : Rat) ≤ (unit : Rat) := Rat.natCast_nonneg
+  unfold termBracket
+  simp only
+  constructor
+  · refine Rat.le_trans (Rat.floor_le _) ?_
+    have e : v * (unit : Rat) = ((v * 1000 - t.hsum) + t.hsum) / 1000 * unit := by grind
+    rw [e]
+    apply Rat.mul_le_mul_of_nonneg_right _ hu
+    grind
+  · refine Rat.le_trans ?_ Rat.le_ceil
+    have e : v * (unit : Rat) = ((v * 1000 - t.hsum) + t.hsum) / 1000 * unit := by grind
+    rw [e]
+    apply Rat.mul_le_mul_of_nonneg_right _ hu
+    grind
+
+/- ================================================================ which gateways the composition consults
+   `get_interzone_route` / `get_global_route_with_netzones` take the gateways from the zone's local answer
+   (`route.gw_src_` / `route.gw_dst_`: for Torus / FatTree / Dragonfly zones with netzone leaves, the entry of
+   ClusterBase's gateway table `get_gateway(id)`; for Star / Vivaldi zones, the gateway declared with the route …) and
+   look at the NetZoneImpl default gateway (`get_gateway()`, `seal`'s rules) only when the answer has none. -/
+
+/-- two platforms that differ at most by the zones' default gateways -/
+structure SameButGateway (P Q : Plat) : Prop where
+  parent : Q.parent = P.parent
+  zoneOf : Q.zoneOf = P.zoneOf
+  zoneNp : Q.zoneNp = P.zoneNp
+  isZone : Q.isZone = P.isZone
+  prepend : Q.prepend = P.prepend
+  loc : Q.loc = P.loc
+  bypass : Q.bypass = P.bypass
+  lat : Q.lat = P.lat
+  depth : Q.depth = P.depth
+
+/-- every local answer names the gateway of an end that is a netzone (true of the routes between the leaves of a
+cluster-like zone: `fill_leaf_from_cb` asserts that a netzone leaf has a gateway; and of declared zone routes) -/
+def GatewaysDeclared (P : Plat) : Prop :=
+  ∀ z a b r, P.loc z a b = some r →
+    (P.isZone a = true → r.gwSrc ≠ none) ∧ (P.isZone b = true → r.gwDst ≠ none)
+
+theorem inferGw_same (P Q : Plat) (h : SameButGateway P Q) (d : Option Np) (cur : Np) (z : Zn)
+    (hd : P.isZone cur = true → d ≠ none) : inferGw Q d cur z = inferGw P d cur z := by
+  unfold inferGw
+  cases d with
+  | some x => rfl
+  | none =>
+    rw [h.isZone]
+    cases hc : P.isZone cur with
+    | true => exact absurd rfl (hd hc)
+    | false => simp
+
+theorem sumLat_same (P Q : Plat) (h : SameButGateway P Q) (l : List Lk) : sumLat Q l = sumLat P l := by
+  simp [sumLat, h.lat]
+
+theorem routeLat_same (P Q : Plat) (h : SameButGateway P Q) (r : Route) : routeLat Q r = routeLat P r := by
+  simp [routeLat, sumLat_same P Q h]
+
+theorem upPath_same (P Q : Plat) (h : SameButGateway P Q) : ∀ (n : Nat) (z : Zn), upPath Q n z = upPath P n z := by
+  intro n
+  induction n with
+  | zero => intro z; rfl
+  | succ n ih =>
+    intro z
+    simp only [upPath, h.parent]
+    cases P.parent z with
+    | none => rfl
+    | some p => simp [ih p]
+
+theorem allEnglobing_same (P Q : Plat) (h : SameButGateway P Q) (np : Np) : allEnglobing Q np = allEnglobing P np := by
+  simp [allEnglobing, upPath_same P Q h, h.depth, h.zoneOf]
+
+theorem findCA_same_gw (P Q : Plat) (h : SameButGateway P Q) (src dst : Np) (sp dp : List Zn) :
+    findCommonAncestors Q src dst sp dp = findCommonAncestors P src dst sp dp := by
+  simp [findCommonAncestors, h.zoneOf]
+
+theorem bpLookup_same (P Q : Plat) (h : SameButGateway P Q) (tbl) (ps pd : List Zn) (i j : Nat) :
+    bpLookup Q tbl ps pd i j = bpLookup P tbl ps pd i j := by
+  simp [bpLookup, h.zoneNp]
+
+theorem bpSearch_same (P Q : Plat) (h : SameButGateway P Q) (tbl) (ps pd : List Zn) :
+    bpSearch Q tbl ps pd = bpSearch P tbl ps pd := by
+  simp [bpSearch, bpLookup_same P Q h]
+
+theorem bypassFind_same (P Q : Plat) (h : SameButGateway P Q) (z : Zn) (src dst : Np) :
+    bypassFind Q z src dst = bypassFind P z src dst := by
+  simp [bypassFind, h.bypass, h.zoneOf, h.depth, upPath_same P Q h, bpSearch_same P Q h]
+
+theorem interzone_same (P Q : Plat) (h : SameButGateway P Q) (hG : GatewaysDeclared P) (np : Np) (toNp : Bool)
+    (path : List Zn) : ∀ (gw : Np) (links : List Lk) (lat : Int),
+      interzone Q np toNp path gw links lat = interzone P np toNp path gw links lat := by
+  induction path with
+  | nil =>
+    intro gw links lat
+    unfold interzone
+    simp only [h.zoneOf, h.loc, routeLat_same P Q h]
+  | cons z rest ih =>
+    intro gw links lat
+    unfold interzone
+    simp only [h.zoneOf, h.loc, h.zoneNp, routeLat_same P Q h]
+    by_cases hz : P.zoneOf np = P.zoneOf gw
+    · simp only [hz, ne_eq, not_true_eq_false, if_false]
+    · simp only [hz, ne_eq, not_false_eq_true, if_true]
+      cases toNp with
+      | true =>
+        simp only [if_true]
+        cases hl : P.loc (P.zoneOf gw) gw (P.zoneNp z) with
+        | none => rfl
+        | some r =>
+          simp only []
+          rw [inferGw_same P Q h r.gwDst (P.zoneNp z) z (hG _ _ _ r hl).2]
+          cases inferGw P r.gwDst (P.zoneNp z) z with
+          | none => rfl
+          | some g => simp only []; exact ih g _ _
+      | false =>
+        simp only [Bool.false_eq_true, if_false]
+        cases hl : P.loc (P.zoneOf gw) (P.zoneNp z) gw with
+        | none => rfl
+        | some r =>
+          simp only []
+          rw [inferGw_same P Q h r.gwSrc (P.zoneNp z) z (hG _ _ _ r hl).1]
+          cases inferGw P r.gwSrc (P.zoneNp z) z with
+          | none => rfl
+          | some g => simp only []; exact ih g _ _
+
+theorem crossRoute_same (P Q : Plat) (h : SameButGateway P Q) (hG : GatewaysDeclared P) (src dst : Np)
+    (links : List Lk) (lat : Int) (A : Anc) : crossRoute Q src dst links lat A = crossRoute P src dst links lat A := by
+  simp only [crossRoute, h.zoneNp, h.loc, routeLat_same P Q h, interzone_same P Q h hG]
+
+theorem globalRouteV_same (fx : Bool) (P Q : Plat) (h : SameButGateway P Q) (hG : GatewaysDeclared P) :
+    ∀ (f : Nat) (src dst : Np) (links : List Lk) (lat : Int),
+      globalRouteV fx Q f src dst links lat = globalRouteV fx P f src dst links lat := by
+  intro f
+  induction f with
+  | zero => intro src dst links lat; rfl
+  | succ f ih =>
+    intro src dst links lat
+    simp only [globalRouteV, allEnglobing_same P Q h, findCA_same_gw P Q h, bypassFind_same P Q h,
+      sumLat_same P Q h, routeLat_same P Q h, crossRoute_same P Q h hG, h.zoneOf, h.loc, h.prepend, ih]
+
+end SgVerif.C24
